@@ -480,10 +480,17 @@ def singular_bins(d, ctx):
         ns = np.transpose(np.stack([nn] * Kx, axis=1).copy(), (1, 0, 2, 3))
     stacked = ctx.lib(call, xs, ns)
     ctx.label(layout)
+    # judged on the regular bins and on the bins with exact zeros; a bin with a
+    # rank-deficient but non-zero matrix has an output of size 1e14.. that is
+    # rounding noise amplified by 1/1e-16 (the known finding for Souden) and
+    # differs between two evaluations by per cents
+    stable = [f for f in range(F) if f not in bad] + \
+        [f for f, k_ in zip(bad, kinds) if k_ in ('noise-zero', 'target-zero', 'both-zero')]
     for k in range(Kx):
-        both = np.isfinite(out) & np.isfinite(stacked[k])
-        require(np.array_equal(np.isfinite(out), np.isfinite(stacked[k])) and
-                np.allclose(stacked[k][both], out[both], rtol=1e-9 * cond, atol=1e-300),
+        a, b = out[stable], stacked[k][stable]
+        both = np.isfinite(a) & np.isfinite(b)
+        require(np.array_equal(np.isfinite(a), np.isfinite(b)) and
+                np.allclose(b[both], a[both], rtol=1e-9 * cond, atol=1e-300),
                 'stack-with-singular-bins-differs-from-single-problem',
                 f'{which} layout={layout} copy {k}', which=which, layout=layout)
     good = [f for f in range(F) if f not in bad]
